@@ -112,6 +112,28 @@ fn normalise(msgs: &[Msg]) -> Vec<(u8, Vec<u8>)> {
         .collect()
 }
 
+/// Slowest round trip (us) of 150 small requests sent 20 ms apart by one client; with `with_mirror`
+/// the primary has one mirror whose listener is in state `listen` from before the first request.
+fn steady_latency(with_mirror: bool, listen: u8, workers: u32) -> Result<u64, String> {
+    let w = build(with_mirror, false, if with_mirror { &[0] } else { &[] }, false, workers)?;
+    for (m, _) in &w.mirrors {
+        w.cell.mocks[*m].ctl.listen.store(listen, Ordering::SeqCst);
+    }
+    let mut c = Conn::connect(&w.cell.addr(), &StartupOpts::new(USER, "db", PASS).app("steady")).map_err(|e| format!("steady connect: {}", e))?;
+    let mut worst = 0u64;
+    for k in 0..150 {
+        let t0 = crate::util::now_ns();
+        c.query(&format!("SELECT 1 {}", tag("steady", &format!("st.q{}", k), "rows=1")), 20_000).map_err(|(m, e)| format!("steady request {}: {:?} {}", k, e, crate::wire::summarize(&m)))?;
+        let us = (crate::util::now_ns() - t0) / 1000;
+        if k > 0 {
+            worst = worst.max(us);
+        }
+        sleep_ms(20);
+    }
+    c.terminate();
+    Ok(worst)
+}
+
 fn run_program(addr: &str, seed: u64, clients: usize, reqs: usize) -> Result<Vec<Vec<StepResult>>, String> {
     let mut hs = vec![];
     for ci in 0..clients {
@@ -519,6 +541,48 @@ pub fn run(tier: &str) -> i32 {
             );
         } else {
             rep.count("latency_candidates_not_reproduced_in_isolation", 1);
+        }
+    }
+    // a mirror that cannot be reached at all for seconds (longer than the pool's connect timeout):
+    // one client sends a small request every 20 ms; its slowest round trip with such a mirror is
+    // compared with the slowest one without mirrors (run alone on the machine, one after the other)
+    for k in 0..(if thorough { 6 } else { 2 }) {
+        let listen = if k % 2 == 0 { LISTEN_DOWN } else { LISTEN_ACCEPT_HANG };
+        let workers_n = [1u32, 2, 1, 4, 2, 1][k % 6];
+        let mut over = 0;
+        let mut last = (0u64, 0u64);
+        for attempt in 0..3 {
+            let la = match steady_latency(false, listen, workers_n) {
+                Ok(v) => v,
+                Err(e) => {
+                    rep.inconclusive(&e);
+                    break;
+                }
+            };
+            let lb = match steady_latency(true, listen, workers_n) {
+                Ok(v) => v,
+                Err(e) => {
+                    rep.inconclusive(&e);
+                    break;
+                }
+            };
+            last = (la, lb);
+            if attempt == 0 {
+                rep.count("unreachable_mirror_runs", 1);
+                rep.max("max_latency_us_with_unreachable_mirror", lb);
+            }
+            if lb > 10 * la + 250_000 {
+                over += 1;
+            } else {
+                break;
+            }
+        }
+        if over >= 2 {
+            rep.violation(
+                &format!("C20|added_waiting_with_unreachable_mirror|mirror={}", if listen == LISTEN_DOWN { "refuses_connections" } else { "accepts_and_never_answers" }),
+                &format!("one client, one small request every 20 ms for 3 s, worker_threads={}: slowest round trip {} us with a mirror that cannot be reached vs {} us without mirrors (bound 10x + 250 ms), in {} consecutive runs", workers_n, last.1, last.0, over),
+                json!({"worker_threads": workers_n}),
+            );
         }
     }
     rep.finish(&[("requests_compared", 500), ("mirror_sessions_embedded_in_source", 20)])
